@@ -56,6 +56,8 @@ func c13(c *Ctx) {
 	r.Declines("amount preservation for arbitrary quantities, idempotence as a round trip, equality of the summary annotation with the final spec")
 
 	c13wholeCPUs(c)
+	extSpecParseError(c)
+	c13labelPresent(c)
 	ext := c.P.Pkg("apis/extension")
 	var allPrio []string
 	if ext != nil {
